@@ -15,7 +15,7 @@ open GeosModel
 inductive Err where
   | parse      -- ParseException
   | illegal    -- IllegalArgumentException from a geometry constructor
-  | fuel       -- model ran out of fuel (never with fuel ≥ number of tokens + 1)
+  | fuel       -- model ran out of fuel (never with the fuel `readToks` supplies, 3·tokens + 4)
 deriving Repr, DecidableEq, Inhabited
 
 /-! ### tokenizer -/
@@ -439,9 +439,11 @@ mutual
       else pure ([g], ts)
 end
 
-/-- `WKTReader::read`: one tagged geometry, then end of input -/
+/-- `WKTReader::read`: one tagged geometry, then end of input.  Fuel: one nesting level through
+`readTagged → readBody → readCurvePolygon → readCurves → readCurve → readTagged` uses 5 units for 2 tokens, so the
+number of tokens is not enough; `3·tokens + 4` always is (rank argument, proved for C11). -/
 def readToks (ts : List Tok) : Except Err G :=
-  match readTagged (ts.length + 2) {} .none ts with
+  match readTagged (3 * ts.length + 4) {} .none ts with
   | .ok (g, []) => .ok g
   | .ok (_, _ :: _) => .error .parse
   | .error e => .error e
